@@ -145,10 +145,55 @@ func pinnedScenarios(tier string) []clustermc.Scenario {
 	return out
 }
 
+// gangVsElasticScenarios: a pending GANG (2-3 pods) whose only possible victims are the pods of ONE
+// elastic job of a queue that is above its fair share by less than the gang needs; unrelated pinned
+// jobs on a second node lift the total (and with it the fair shares). What the fairness validator
+// sees of the victims must be what the statement evicts, for every size of the victim set.
+func gangVsElasticScenarios(tier string) []clustermc.Scenario {
+	pin := func(pool string) func(p *corev1.Pod) {
+		return func(p *corev1.Pod) { p.Spec.NodeSelector = map[string]string{"pool": pool} }
+	}
+	pinned := func(n int, state, node, pool string) []world.PodSpec {
+		ps := pods(n, shG1, state, node)
+		for i := range ps {
+			ps[i].Mutate = pin(pool)
+		}
+		return ps
+	}
+	cfgs := []schedrun.Config{{}, {ConsolidatingReclaim: true}, {SaturationMultiplier: "1.5", NoConsolidation: true}}
+	var out []clustermc.Scenario
+	for _, e := range []int{3, 4} { // pods of the elastic job = GPUs of node0
+		for _, g := range []int{2, 3} { // pods of the pending gang
+			for _, f := range []int{1, 2} { // one-GPU jobs of queue c = GPUs of node1
+				for _, qb := range []float64{1, 2} {
+					for _, wb := range []float64{0, 1} {
+						b := world.NewBuilder()
+						b.Node(world.NodeOpt{Name: "n0", CPU: "16", Mem: "32Gi", GPUs: e, GPUMemMiB: 40000, Labels: map[string]string{"pool": "x"}})
+						b.Node(world.NodeOpt{Name: "n1", CPU: "16", Mem: "32Gi", GPUs: f, GPUMemMiB: 40000, Labels: map[string]string{"pool": "y"}})
+						b.GQueue("qa", "", 1, -1, 1).GQueue("qb", "", qb, -1, wb).GQueue("qc", "", 1, -1, 0)
+						b.Workload(world.WL{Name: "b-elastic", Tag: "run-elastic-qb", Queue: "qb", MinMember: 1, Pods: pinned(e, world.StRunning, "n0", "x")})
+						for i := 0; i < f; i++ {
+							b.Workload(world.WL{Name: fmt.Sprintf("c-job%d", i), Tag: "run-g1-qc", Queue: "qc", Pods: pinned(1, world.StRunning, "n1", "y")})
+						}
+						b.Workload(world.WL{Name: "a-gang", Tag: "pend-gang-qa", Queue: "qa", MinMember: int32(g), Pods: pinned(g, "", "", "x")})
+						w := b.Done()
+						for ci, cfg := range cfgs {
+							out = append(out, clustermc.Scenario{Name: fmt.Sprintf("gang-vs-elastic/e%d-g%d-f%d-qb%v-wb%v/cfg%d[%s]", e, g, f, qb, wb, ci, cfg.Label()), World: w, Configs: []schedrun.Config{cfg}})
+						}
+					}
+				}
+			}
+		}
+	}
+	return out
+}
+
 func C15() *clustermc.Family {
 	return &clustermc.Family{
 		Property:  "C15",
-		Scenarios: func(tier string) []clustermc.Scenario { return append(closedScenarios(tier), pinnedScenarios(tier)...) },
+		Scenarios: func(tier string) []clustermc.Scenario {
+			return append(append(closedScenarios(tier), pinnedScenarios(tier)...), gangVsElasticScenarios(tier)...)
+		},
 		Depth: func(tier string) int {
 			if tier == "thorough" {
 				return 16
